@@ -20,6 +20,7 @@ mod intro_ops;
 mod conc_ops;
 mod many_methods;
 mod librt;
+mod evo_ops;
 
 fn main() {
     std::panic::set_hook(Box::new(|_| {}));
@@ -53,6 +54,9 @@ pub fn dispatch(op: &str, toks: &[&str]) -> String {
         return r;
     }
     if let Some(r) = librt::dispatch(op, toks) {
+        return r;
+    }
+    if let Some(r) = evo_ops::dispatch(op, toks) {
         return r;
     }
     if let Some(r) = schema_ops::dispatch(op, toks) {
